@@ -548,6 +548,17 @@ var pkiFiles = map[string]string{}
 
 // pkiFile writes a fixture to a per-process directory next to the worker binary (inside the scratch
 // build, removed with it) and returns its path.
+// pkiPaths returns the fixture files (certificate, key) written for a server certificate kind, if any.
+func pkiPaths(kind string) []string {
+	var out []string
+	for _, n := range []string{kind + ".crt", kind + ".key"} {
+		if p, ok := pkiFiles[n]; ok {
+			out = append(out, p)
+		}
+	}
+	return out
+}
+
 func pkiFile(name, content string) string {
 	if p, ok := pkiFiles[name]; ok {
 		return p
